@@ -2,7 +2,7 @@
     and I/O in the form the properties state them. *)
 From Coq Require Import List ZArith NArith Bool Lia.
 From RRSS Require Import Base.Outcome Base.Chars Base.F64 Base.F64Text Exec.Val Exec.Ops Front.Ast Front.Poetic Exec.Env Exec.Interp.
-From RRSS Require Import Proofs.ValSafe Proofs.InterpInv.
+From RRSS Require Import Exec.RtErrorText Proofs.ValSafe Proofs.InterpInv.
 Import ListNotations.
 
 (** * C09: no crash, for every program, profile, input, fault positions and fuel *)
@@ -282,3 +282,7 @@ Proof.
   - destruct H as [H1 H2]. repeat split; auto.
   - destruct H as (H1 & H2 & H3). subst. repeat split; auto.
 Qed.
+
+(** the message of every runtime error renders: [rt_error_display] is a total function *)
+Theorem runtime_error_renders : forall e : rt_error, exists txt, rt_error_display e = txt.
+Proof. intro e. eexists. reflexivity. Qed.
